@@ -243,6 +243,7 @@ func verifC10Path(w *verifC10W, name string, p *Path, optional *OptionalPath) {
 	w.oc("ru", p.ReadUser)
 	w.oc("rpw", p.ReadPass)
 
+	w.i("uprn", int64(len(p.RTSPUDPSourcePortRange)))
 	w.u("cam", uint64(p.RPICameraCamID))
 	w.b("sec", p.RPICameraSecondary)
 	w.u("w", uint64(p.RPICameraWidth))
